@@ -2,10 +2,16 @@
     Proved: the translated MinRc table frees exactly on 1 -> 0 and never underflows; clone then drop returns to the
     same count; the actor cell of the model is freed exactly when that table says so; closure instances of the main
     queue are consumed exactly once (C01).  Sampled: machine-level memory safety under AddressSanitizer (thorough
-    tier).  Not yet proved: [C16_ok] for all programs outside the classes of F4/F5/F7. *)
-From Coq Require Import ZArith NArith List.
+    tier).
+    Proved for every program (any deferrer kind, any fuel): the at-most-once / not-before-creation part of C16_ok
+    for closure instances, actor values, user Rets and termination notifiers ([C16_released_once_partial]), where
+    [C16_decomposition] shows that C16_ok is exactly the conjunction of the flag check (no leak report, no
+    impossible code, no use of a freed cell) and the at-most-once monitors of these kinds and of the others.
+    Not yet proved: the same for tokens, Fwd objects and orphaned value tokens (not in the census of Lin.v), and
+    the flag check (nothing leaks outside the classes of F4/F5/F7; no access to a freed cell). *)
+From Coq Require Import ZArith NArith List Bool.
 Import ListNotations.
-From Stk Require Import Lib.U Gen.SrcCount R.Syntax R.Rt R.Mon R.Count R.OneStep.
+From Stk Require Import Lib.U Gen.SrcCount R.Syntax R.Rt R.Mon R.Count R.OneStep R.C16Proofs.
 Local Open Scope Z_scope.
 
 Theorem C16_heap_partial :
@@ -16,3 +22,24 @@ Theorem C16_heap_partial :
      exists x', aget (actors s') a = Some x' /\ a_freed x' = z /\ a_rc x' = v).
 Proof. split; [exact minrc_drop_spec|]. split; [exact minrc_clone_drop | exact drop_ref_frees]. Qed.
 Print Assumptions C16_heap_partial.
+
+(* C16_ok splits into the flag check and the at-most-once monitors of any two complementary sets of object kinds *)
+Theorem C16_decomposition : forall (K : N -> bool) (t : list ev),
+  C16_ok t = C16_flags_ok t && C16_once_ok K t && C16_once_ok (fun k => negb (K k)) t.
+Proof. exact C16_split. Qed.
+Print Assumptions C16_decomposition.
+
+(* closures, actor values, user Rets, termination notifiers: consumed only if created before and not yet consumed *)
+Theorem C16_released_once_partial : forall (d : dkind) (p : list top) (fuel : nat) (t : list ev),
+  exec d fuel p = Done t -> C16_once_ok K16_lin t = true.
+Proof. exact C16_lin_proved. Qed.
+Print Assumptions C16_released_once_partial.
+
+Example C16_once_table :
+  C16_once_ok K16_lin [EClo 1 0; ERun 1 0 QMain] = true /\
+  C16_once_ok K16_lin [EClo 1 0; ERun 1 0 QMain; EDrop 1 None false] = false /\
+  C16_once_ok K16_lin [ERun 1 0 QMain; EClo 1 0] = false /\
+  C16_once_ok K16_lin [ERetNew 7; ERet 7 None; ERet 7 (Some 3%N)] = false /\
+  C16_once_ok K16_lin [EActor 2; EReady 2; EValDrop 2; ENotify 2 None] = true /\
+  C16_once_ok K16_lin [EActor 2; ENotify 2 None; ENotify 2 None] = false.
+Proof. exact C16_once_rejects. Qed.
